@@ -92,6 +92,8 @@ func opValue(tag, i int, op memOp) expr.Expr {
 		return mk(op.W + 1)
 	case "byteval":
 		return mk(1)
+	case "basecopy":
+		return mk(op.W) // replaced by the caller when a base layer exists
 	case "sym":
 		return expr.NewRegLoad(expr.Key(fmt.Sprintf("s%d", (tag+i)%10)), expr.Width(op.W))
 	case "symwide":
@@ -345,6 +347,19 @@ func memRun(c memCase) (*eng.Fail, int) {
 	var rets []returned
 	for i, op := range c.Ops {
 		v := opValue(0, i, op)
+		if op.Kind == "basecopy" {
+			// a constant equal to what the base layer holds there (restoring the original content)
+			bs := make([]byte, op.W)
+			for j := range bs {
+				bs[j] = byte(0x30 + i + j)
+				if cl, ok := baseMdl[op.Addr+j]; ok {
+					if k, isC := cl.val.(expr.Const); isC {
+						bs[j] = k.Bytes()[cl.idx]
+					}
+				}
+			}
+			v = expr.NewConst(bs, expr.Width(op.W))
+		}
 		hs = append(hs, handed{fmt.Sprintf("value of store #%d", i), v, ir.Show(v)})
 		p, stack := eng.Catch(func() { mem.Store(off+model.Addr(op.Addr), v, expr.Width(op.W)) })
 		trans++
